@@ -76,10 +76,13 @@ type Piece struct {
 
 // Run is the outcome of one operation sequence.
 type Run struct {
-	Full     string // reference: concatenation of every written piece, untrimmed
-	Pieces   []Piece
-	Text     string // returned by Builder.Complete
-	Entities []tg.MessageEntityClass
+	Full   string // reference: concatenation of every written piece, untrimmed
+	Pieces []Piece
+	// LastGroup holds the kinds of the pieces created by the last formatting operation (the
+	// "last text block" whose entities the builder trims); used to label failures only.
+	LastGroup []int
+	Text      string // returned by Builder.Complete
+	Entities  []tg.MessageEntityClass
 }
 
 // Operation language (one string per operation):
@@ -147,6 +150,7 @@ func Exec(ops []string, api string) (*Run, error) {
 			}
 			do(func(b *entity.Builder) { b.Format(s, Kinds[k].Format()) }, func() styling.StyledTextOption { return Kinds[k].Styling(s) })
 			r.Pieces = append(r.Pieces, Piece{Kind: k, Off: u16, Len: UTF16Len(s)})
+			r.LastGroup = []int{k}
 			full.WriteString(s)
 			u16 += UTF16Len(s)
 		case "G":
@@ -160,6 +164,7 @@ func Exec(ops []string, api string) (*Run, error) {
 			}
 			do(func(b *entity.Builder) { b.Format(s, Kinds[k1].Format(), Kinds[k2].Format()) }, nil)
 			r.Pieces = append(r.Pieces, Piece{Kind: k1, Off: u16, Len: UTF16Len(s)}, Piece{Kind: k2, Off: u16, Len: UTF16Len(s)})
+			r.LastGroup = []int{k1, k2}
 			full.WriteString(s)
 			u16 += UTF16Len(s)
 		case "S":
@@ -192,6 +197,7 @@ func Exec(ops []string, api string) (*Run, error) {
 				off, refTokens = refTokens[0], refTokens[1:]
 			}
 			r.Pieces = append(r.Pieces, Piece{Kind: k, Off: off, Len: u16 - off})
+			r.LastGroup = []int{k}
 		default:
 			return nil, fmt.Errorf("unknown op %q", op)
 		}
